@@ -227,6 +227,13 @@ def enc_msgclient(r):
         raise ValueError(t)
     return "MC (%s) %s" % (m, cl(r["out"][0]))
 
+def sigdata(x):
+    return "(mkSD %s %s %s %s)" % (hx(x[0]), hx(x[1]), hx(x[2]), N(x[3]))
+
+def enc_solomis(r):
+    i = r["in"]
+    return "SoloMis %s %s %s %s" % (N(i[0]), opt(i[1], sigdata), opt(i[2], sigdata), cl(r["out"][0]))
+
 def enc_sample(r):
     return "Sample %s" % cl(r["out"][0])
 
@@ -299,30 +306,11 @@ KINDS47 = {
     "c47_msgv1": dict(props=["C47"], enc=enc_msgv1, exact=True, spec=mon("channel v1 Msg.ValidateBasic")),
     "c47_msgv2": dict(props=["C47"], enc=enc_msgv2, exact=True, spec=mon("channel v2 Msg.ValidateBasic", lambda r: json_short(r["in"][1]))),
     "c47_msgclient": dict(props=["C47"], enc=enc_msgclient, exact=True, spec=mon("client Msg.ValidateBasic")),
+    "c47_solomis": dict(props=["C47"], enc=enc_solomis, exact=True, spec=mon("solomachine Misbehaviour.ValidateBasic")),
     "c47_sample": dict(props=["C47"], enc=enc_sample, exact=False, spec=mon("sampled decoder", sample_fmt)),
 }
 
-# ---- matchers for findings (ids proposed to the lead; they take effect once KNOWN_FINDINGS.jsonl lists them
-#      with "property":"C47","kind":"known") -----------------------------------------------------------------
-def _is_rev_overflow(h):
-    s = bytes.fromhex(h)
-    i = s.rfind(b"-")
-    d = s[i + 1:]
-    return i >= 1 and d.isdigit() and d[:1] != b"0" and int(d) >= 1 << 64
-
-def known_chainid(r):
-    if r["k"] == "c47_chainid" and r["out"][0] == "panic":
-        return _is_rev_overflow(r["in"])
-    if r["k"] == "c47_msgclient" and r["out"][0] == "panic" and r["in"][0] in ("create",):
-        cs = r["in"][2]
-        return cs is not None and cs[1] is not None and cs[1][1] == "panic"
-    return False
-
-def known_create_nil_any(r):
-    if r["k"] == "c47_msgclient" and r["out"][0] == "panic" and r["in"][0] == "create":
-        return r["in"][2] is None or r["in"][3] is None
-    if r["k"] == "c47_sample" and r["out"][0] == "panic" and r["in"][0] == "client.MsgCreateClient":
-        return r["in"][2] == "ok"
-    return False
-
-KNOWN47 = {"F8": known_chainid, "F9": known_create_nil_any}
+# the panics found by this check (ParseChainID revision overflow; MsgCreateClient nil Any; solo machine
+# misbehaviour nil signatures) are fixed in /repo (d71d2e9, e3d0037, 6331512); their inputs stay in the harness
+# as regression corpus (tags regression-*), so there is nothing to match here.
+KNOWN47 = {}
